@@ -112,7 +112,7 @@ func c10GenFile(r *rand.Rand, k int) c10File {
 	case 12: // the same by-construction document encoded as UTF-16 with a byte-order mark (what PowerShell `>` or Notepad "Unicode" writes)
 		e := c10Entries(r, false)
 		for i := range e { // valid UTF-8 only: the document is transcoded
-			if !utf8.ValidString(e[i].Command+e[i].Description+strings.Join(e[i].Keywords, "")+strings.Join(e[i].Tags, "")+e[i].Niche+strings.Join(e[i].Platform, "")) {
+			if !utf8.ValidString(e[i].Command + e[i].Description + strings.Join(e[i].Keywords, "") + strings.Join(e[i].Tags, "") + e[i].Niche + strings.Join(e[i].Platform, "")) {
 				e[i] = vlib.Cmd{Command: "plain", Description: "entry"}
 			}
 		}
